@@ -4,7 +4,7 @@
    the SPECIFICATION of Spec/Terminal.v.  Input hypotheses of the style clause, both forced:
      numeric_toks : every SGR sequence body is [0-9;]*  - for any other body a terminal ignores the whole
                     sequence while the library keeps what Python's int() can read (Examples
-                    non_numeric_differs / lenient_int_differs in Proofs/ParseProofs.v);
+                    non_numeric_differs / lenient_int_repaired in Proofs/ParseProofs.v);
      only_sgr     : no ESC [ is left in the text, i.e. every control sequence of the input ends in 'm'
                     - other control sequences are kept verbatim in base_str (as the statement says) but a
                     terminal swallows them (Example not_only_sgr_differs). *)
